@@ -2,7 +2,7 @@
 
 ENGINES = [
     dict(name='symx', path='/verif/symx',
-         serves_properties=['C01', 'C02', 'C03', 'C04', 'C05', 'C06', 'C07', 'C08', 'C09', 'C10', 'C11', 'C12', 'C13', 'C14', 'C15', 'C16', 'C17', 'C19', 'C20'],
+         serves_properties=['C01', 'C02', 'C03', 'C04', 'C05', 'C06', 'C07', 'C08', 'C09', 'C10', 'C11', 'C12', 'C13', 'C14', 'C15', 'C16', 'C17', 'C18', 'C19', 'C20'],
          kind_free_text='symbolic execution of the real emsarray functions on numpy/xarray object arrays of z3-backed '
                         'scalars; fork-by-re-execution path explorer; every path closed by z3 verdict queries and a '
                         'concrete replay of a model on the unmodified stack'),
@@ -234,6 +234,19 @@ CHECKS = {
              'matplotlib artists.',
         design_ref='DESIGN.md section 4, C19',
         note='Rendering and animate_on_figure are outside; datasets without any cell geometry are excluded.',
+    ),
+    'C18': dict(
+        engine='symx',
+        technique='symbolic execution of the real Transect.segments / transect_dataset / prepare_data_array_for_transect with abstract GEOS/PROJ contracts: intersection kinds chosen by the solver, along-path distances are z3 Reals (the sorts fork on comparisons)',
+        text='For a path meeting up to 3 cells, every combination of intersection kinds (piece, two pieces, piece + touching '
+             'point, point only, nothing) and all along-path distances, z3 shows: one segment per line piece and none for '
+             'points, each naming its cell (linear index, native index, polygon), start <= end with matching end points, '
+             'segments sorted by (start, end), the linear_index coordinate in that order, and prepared data holding the '
+             'values of each segment cell at every depth with depth and index last. Real polylines over real grids and a '
+             'concave mesh face are checked with a geometric oracle (inside its cell, lengths add up, path order).',
+        design_ref='DESIGN.md section 4, C18',
+        note='That a piece lies within its polygon and that lengths add up are GEOS / PROJ facts: validated on the real '
+             'polylines only. cfunits (absent system library) is replaced by a stand-in module, as the property notes.',
     ),
 }
 
